@@ -3,12 +3,16 @@ import Mathlib.Data.List.Forall2
 import Mathlib.Data.List.Perm.Basic
 import PolyVerif.Model.Transform
 import PolyVerif.Spec.Nucleotide
+import PolyVerif.Lemmas.Expansion
 /-
 C11 — Reverse complement and IUPAC expansion obey nucleotide-code semantics.
 
 Table facts are decided on the REGENERATED tables (Gen.complementRows / Gen.iupacRows);
 everything else is proved for every string over the 15 IUPAC codes in either case,
-of any length.
+of any length; the expansion clause (`variants_exact`) for every such string with at most MaxInt32
+readings — the guard of the code — and `variants_too_many` above it.  The last section proves that the
+predicates the JUDGE evaluates on the implementation's reply (`Spec.isExpansion`, `allDistinct`,
+`reads`, `isIupac15`) are exactly the statements of these theorems (helpers: Lemmas/Expansion.lean).
 -/
 namespace PolyVerif.Props.C11
 open PolyVerif PolyVerif.Transform PolyVerif.Spec
@@ -22,6 +26,29 @@ def Iupac (s : Str) : Prop := ∀ c ∈ s, c ∈ letters
 instance (s : Str) : Decidable (Iupac s) := by unfold Iupac; infer_instance
 
 theorem isIupac15_iff_mem_letters : ∀ c ∈ letters, isIupac15 c = true := by decide
+
+theorem isIupac15_ascii : ∀ n, n < 128 → isIupac15 (Char.ofNat n) = true → Char.ofNat n ∈ letters := by decide
+
+theorem letter_lt_128 (c : Char) (h : c.isUpper = true ∨ c.isLower = true) : c.toNat < 128 := by
+  simp only [Char.isUpper, Char.isLower, Bool.and_eq_true, decide_eq_true_eq, UInt32.le_iff_toNat_le] at h
+  have : c.toNat = c.val.toNat := rfl
+  rcases h with h | h <;> (have := h.2; simp at this; omega)
+
+/-- the judge's domain test `isIupac15` (which cases are judged at all) is EXACTLY membership in the
+30 letters the theorems quantify over — for every character, not only for the letters -/
+theorem isIupac15_iff (c : Char) : isIupac15 c = true ↔ c ∈ letters := by
+  constructor
+  · intro h
+    have h2 : c.isUpper = true ∨ c.isLower = true := by
+      simp only [isIupac15, Bool.and_eq_true, Bool.or_eq_true] at h; exact h.2
+    have := isIupac15_ascii c.toNat (letter_lt_128 c h2)
+    rw [Char.ofNat_toNat] at this
+    exact this h
+  · exact isIupac15_iff_mem_letters c
+
+/-- … hence the judge's in-domain test on a string is the theorems' hypothesis `Iupac` -/
+theorem inDomain_iff (s : Str) : s.all isIupac15 = true ↔ Iupac s := by
+  simp only [List.all_eq_true, isIupac15_iff, Iupac]
 
 /-! ### table obligations (re-checked against the regenerated tables on every run) -/
 
@@ -99,11 +126,12 @@ theorem rc_rc {s : Str} (h : Iupac s) : revComp (revComp s) = s := by
 
 /-- case is preserved position by position -/
 theorem rc_case {s : Str} (h : Iupac s) :
-    (revComp s).map Char.isLower = (reverse s).map Char.isLower := by
+    (revComp s).map Char.isLower = (reverse s).map Char.isLower ∧
+    (revComp s).map Char.isUpper = (reverse s).map Char.isUpper := by
   simp only [revComp, reverse, complement, ← List.map_reverse, List.map_map]
-  apply List.map_congr_left
-  intro c hc
-  exact (table_compl_case c (h c (by simpa using hc))).1
+  constructor <;> apply List.map_congr_left <;> intro c hc
+  · exact (table_compl_case c (h c (by simpa using hc))).1
+  · exact (table_compl_case c (h c (by simpa using hc))).2
 
 /-- the model's reverse complement is the independent reading: reverse, then replace each code
 by the code of the complementary base set -/
@@ -117,37 +145,6 @@ theorem palindromic_iff (s : Str) : isPalindromic s = true ↔ s = revComp s := 
   simp [isPalindromic]
 
 /-! ### IUPAC expansion, all lengths -/
-
-theorem mem_cart : ∀ (ls : List (List Char)) (w : Str),
-    w ∈ cart ls ↔ List.Forall₂ (fun x l => x ∈ l) w ls
-  | [], w => by
-    simp only [cart, List.mem_singleton]
-    constructor
-    · rintro rfl; exact .nil
-    · intro h; cases h; rfl
-  | l :: ls, w => by
-    simp only [cart, List.mem_flatMap, List.mem_map]
-    constructor
-    · rintro ⟨c, hc, v, hv, rfl⟩
-      exact .cons hc ((mem_cart ls v).1 hv)
-    · intro h
-      cases h with
-      | cons hc hv => exact ⟨_, hc, _, (mem_cart ls _).2 hv, rfl⟩
-
-theorem cart_nodup : ∀ (ls : List (List Char)), (∀ l ∈ ls, l.Nodup) → (cart ls).Nodup
-  | [], _ => by simp [cart]
-  | l :: ls, h => by
-    have hl : l.Nodup := h l (by simp)
-    have ih := cart_nodup ls (fun x hx => h x (by simp [hx]))
-    simp only [cart]
-    rw [List.nodup_flatMap]
-    refine ⟨fun c _ => ?_, ?_⟩
-    · exact ih.map (fun a b hab => by simpa using hab)
-    · refine hl.imp ?_
-      intro a b hab
-      simp only [Function.onFun, List.disjoint_left, List.mem_map]
-      rintro x ⟨v, _, rfl⟩ ⟨v', _, h'⟩
-      exact hab (by simpa using (List.cons_eq_cons.1 h').1.symm)
 
 /-- `w` is a concrete reading of `s`: same length and, position by position, one of the bases
 the code stands for (INSDC/IUPAC reading; independent of the code's table). -/
@@ -174,19 +171,6 @@ theorem variantLists_spec : ∀ {s : Str}, Iupac s →
 
 /-- the expansion table lists as many bases as the code stands for -/
 theorem table_iupac_len : ∀ c ∈ letters, (iupacLookup c).map List.length = some (basesOf c).length := by decide
-
-/-- product of a list of numbers -/
-def prodR : List Nat → Nat
-  | [] => 1
-  | n :: ns => n * prodR ns
-
-theorem foldl_mul_eq (ns : List Nat) (a : Nat) : ns.foldl (· * ·) a = a * prodR ns := by
-  induction ns generalizing a with
-  | nil => simp [prodR]
-  | cons n ns ih => simp [List.foldl_cons, ih, prodR, Nat.mul_assoc]
-
-theorem readingCount_eq (s : Str) : readingCount s = prodR (s.map fun c => (basesOf c).length) := by
-  simp [readingCount, foldl_mul_eq]
 
 theorem prodR_pos {ns : List Nat} (h : ∀ n ∈ ns, 0 < n) : 0 < prodR ns := by
   induction ns with
@@ -277,6 +261,33 @@ theorem variants_too_many {s : Str} (h : Iupac s) (hc : maxInt32 < readingCount 
         ← readingCount_eq] at hcg
       omega
   simp [allVariants, hls, hg]
+
+/-! ### the judge's predicates are the statement of `variants_exact` -/
+
+/-- the n log n distinctness test of the judge (merge sort, neighbours) is `List.Nodup` -/
+theorem judge_allDistinct_iff (l : List Str) : allDistinct l = true ↔ l.Nodup := allDistinct_iff_nodup l
+
+/-- the judge's `reads` is `Reads` -/
+theorem judge_reads_iff (s w : Str) : reads s w = true ↔ Reads s w := reads_iff s w
+
+/-- `Spec.isExpansion s got` — what the judge evaluates on the implementation's reply — holds exactly
+when `got` is duplicate-free and is exactly the set of readings of `s` (for every `s`, `got`). -/
+theorem isExpansion_iff (s : Str) (got : List Str) :
+    isExpansion s got = true ↔ got.Nodup ∧ ∀ w, w ∈ got ↔ Reads s w :=
+  isExpansion_iff_forall₂ s got
+
+/-- the model's answer passes the judge (so `corr = same` on an enumerated case implies `judge = pass`) -/
+theorem variants_pass_judge {s : Str} (h : Iupac s) {vs : List Str} (hv : allVariants s = some vs) :
+    isExpansion s vs = true := by
+  have hc : readingCount s ≤ maxInt32 := by
+    apply Classical.byContradiction
+    intro hn
+    rw [variants_too_many h (by omega)] at hv
+    cases hv
+  obtain ⟨vs', hv', hnd, hw⟩ := variants_exact h hc
+  rw [hv] at hv'
+  cases hv'
+  exact (isExpansion_iff s vs).2 ⟨hnd, hw⟩
 
 def acgt : List Char := ['A', 'C', 'G', 'T']
 
